@@ -23,6 +23,13 @@ class RichCuwpLookup:
         return self._cuwp_by_id_lookup.get(id)
 
     def get_id_by_cuwp(self, cuwp: RichCuwpSlot) -> int:
+        # CUWP equality ignores the index, so several slots can hold equal properties;
+        # a slot that still sits at the index it carries keeps that index
+        if (
+            cuwp.index is not None
+            and self._cuwp_by_id_lookup.get(cuwp.index) == cuwp
+        ):
+            return cuwp.index
         return self._id_by_cuwp_lookup[cuwp]
 
     def get_ids(self) -> set[int]:
